@@ -3,7 +3,7 @@
 From Coq Require Import List NArith ZArith Bool.
 From Coq Require Import String.
 Import ListNotations.
-From GP Require Import Generated Model.Handshake Model.Stderr Model.Env Model.MuxBroker Model.GrpcMux Model.Serve Model.Kill Model.Tls Model.Resources.
+From GP Require Import Generated Model.Handshake Model.Stderr Model.Env Model.MuxBroker Model.GrpcMux Model.Serve Model.Kill Model.Tls Model.Resources Model.Crash.
 
 Definition gen_hs_params : hs_params :=
   {| hp_core := core_protocol_version;
@@ -77,3 +77,16 @@ Definition gen_res_params : Resources.rparams :=
        match sel_lookup select_table "grpc_run"%string 0 with Some x => sel_default x | None => false end;
      (* nothing in the code orders the plugin's exit after its AcceptAndServe goroutines have closed their listeners *)
      Resources.rp_stop_waits_for_brokered := false |}.
+
+Definition first_timer (l : list Z) : option Z := match l with t :: _ => Some t | [] => None end.
+
+Definition gen_crash_params : Crash.cparams :=
+  {| Crash.cp_start_done := crash_start_selects_done;
+     Crash.cp_start_timeout := crash_start_selects_timeout;
+     Crash.cp_lines_eof := crash_lines_closed_at_eof;
+     Crash.cp_wait_cancels := crash_wait_cancels_ctx;
+     Crash.cp_wait_sets_exited := crash_wait_sets_exited;
+     Crash.cp_grpc_ctx := crash_grpc_plugins_get_done_ctx;
+     Crash.cp_mux_accept_timer := first_timer mux_accept_timers;
+     Crash.cp_grpc_dial_timer := first_timer grpc_dial_timers;
+     Crash.cp_grpc_knock_timer := first_timer grpc_knock_timers |}.
